@@ -598,3 +598,29 @@ Definition agree_on (bs : list (Z * Z)) (fw fw' : bytes) : Prop :=
   forall i, covered bs (Z.of_nat i) -> nth_error fw i = nth_error fw' i.
 
 Definition verdict (b : bool) (e : Z) : outcome unit := if b then Ok tt else Err e.
+
+(* a key-manifest hash entry that ValidateBPMKey looks at, and what it demands of it *)
+Definition bpm_applies (e : kmhash) : bool := negb (Z.land (h_usage e) c16_usage_bpm_signing =? 0).
+
+Definition bpm_entry_good (hash : Z -> bytes -> bytes) (k : key) (e : kmhash) : Prop :=
+  cbnt_hash_size (h_alg e) = Some (zlen (h_buf e)) /\
+  k_alg k = c16_alg_rsa /\ 4 <= zlen (k_data k) /\
+  h_buf e = hash (h_alg e) (zskipn 4 (k_data k)).
+
+(* the byte ranges of a PSP entry that getSignedBlob reads: the header fields, the signed
+   range and the signature *)
+Definition psp_cover (ks : keyset) (raw : bytes) : list (Z * Z) :=
+  (0, c16_psp_hdr_wire) ::
+  match get_key ks (sub c16_psp_off_SignatureParameters 16 raw) with
+  | None => []
+  | Some k =>
+    match psp_ranges (rd c16_psp_off_SizeSigned 4 raw) (rd c16_psp_off_SizeImage 4 raw)
+                     (rd c16_psp_off_CompressionOptions 4 raw) (rd c16_psp_off_CompressedImageSize 4 raw)
+                     (pk_modsize k / 8) with
+    | Ok rg => [(0, fst rg); (fst (snd rg), snd (snd rg))]
+    | _ => []
+    end
+  end.
+
+(* the hash NewSignedBlob selects from the size of the modulus *)
+Definition psb_hash_of (n : Z) : Z := if bytelen n * 8 =? 4096 then c16_alg_sha384 else c16_alg_sha256.
